@@ -306,3 +306,11 @@ package avfs
 //@ func (*UMaskFn).UMask
 //@   ensures[C11,C03] r0 == umf.umask
 //@   modifies nothing
+
+// SplitAbs (both builds): never slices out of range; the two results are the pieces of path
+// around the last separator after the volume name, or ("", path) when there is none.
+//@ func SplitAbs
+//@   requires vfs != nil
+//@   ensures[C13,C07] (r0 == "" && r1 == path) || (len(r0) + 1 + len(r1) == len(path) && r0 == substr(path, 0, len(r0)) && r1 == substr(path, len(r0)+1, len(path)))
+//@   loop 0 invariant[C13,C07] -1 <= i && i < len(path) && l - 1 <= i && 0 <= l
+//@   modifies nothing
